@@ -38,7 +38,8 @@ class Ctx:
         self.cov = {}
         self.assumptions = []
         self.notes = {}
-        self.violations = []     # (key, detail)
+        self.violations = []     # (key, detail): first occurrence per key
+        self.vcount = {}
         self.known_hit = {}      # key pattern -> count
         self.drift = []
         self.distinct = set()
@@ -72,7 +73,8 @@ class Ctx:
             if k.get('status') == 'open' and fnmatch.fnmatch(key, k['key']):
                 self.known_hit[k['key']] = self.known_hit.get(k['key'], 0) + 1
                 return False
-        if len(self.violations) < 50:
+        self.vcount[key] = self.vcount.get(key, 0) + 1
+        if self.vcount[key] == 1 and len(self.violations) < 12:
             self.violations.append((key, detail))
         return True
 
@@ -98,7 +100,7 @@ class Ctx:
                 json.dump({'property': self.prop, 'key': key, 'tier': self.tier, 'seed': self.seed,
                            'detail': detail}, f, indent=1, default=repr)
             print(f'VIOLATION property={self.prop} replay={path}', flush=True)
-            print(f'  key={key} detail={json.dumps(detail, default=repr)[:600]}', flush=True)
+            print(f'  key={key} occurrences={self.vcount.get(key)} detail={json.dumps(detail, default=repr)[:500]}', flush=True)
             rc = 1
         cov = {
             'states': self.states, 'transitions': self.transitions,
@@ -120,10 +122,10 @@ class Ctx:
                 cov[k] = v
         ev = {'property_id': self.prop, 'tier': self.tier, 'seed': self.seed, 'level': self.level,
               'coverage': cov, 'assumptions': self.assumptions, 'wall_s': round(wall, 2),
-              'violations': len(self.violations)}
+              'violations': sum(self.vcount.values())}
         with open(os.path.join(EVID, f'{self.prop}.json'), 'w') as f:
             json.dump(ev, f, indent=1, default=repr)
         print(f'{self.prop} {self.tier}: states={self.states} transitions={self.transitions} '
-              f'impl_traces={self.traces} evals={self.evaluations} violations={len(self.violations)} '
+              f'impl_traces={self.traces} evals={self.evaluations} violations={sum(self.vcount.values())} '
               f'known={sum(self.known_hit.values())} wall={wall:.1f}s', flush=True)
         return rc
